@@ -79,7 +79,7 @@ def plain(rng, depth=2):
 
 def gen_multi(rng):
     """Several references in one evaluated document, expanded by hand by the generator (expected document in 'expanded')."""
-    kind = rng.choice(['twins', 'twins', 'nested-same-target', 'nested-same-target', 'nested-via-template', 'root-host', 'root-host'])
+    kind = rng.choice(['twins', 'twins', 'nested-same-target', 'nested-same-target', 'nested-via-template', 'root-host', 'root-host', 'entry-host', 'entry-host'])
     labels = {'multi:' + kind}
     if kind == 'twins':
         # two documents whose distinguishing key differs only in type (or prints alike), both referenced from one host document
@@ -140,6 +140,42 @@ def gen_multi(rng):
             expanded.reverse()
         labels.add('root-host:%s:%s' % (d, 'empty-pattern' if not pat else 'pattern'))
         return {'docs': docs, 'expanded': expanded, 'multi': kind, 'labels': sorted(labels)}
+    if kind == 'entry-host':
+        # a map-form host with local keys that is itself a list entry (next to plain entries and to list-form references)
+        t = plain(rng)
+        local = {'name': rng.choice(['web', 'db']), 'own': rng.randint(1, 9)}
+        if rng.random() < 0.4 and t:
+            k0 = rng.choice(list(t.keys()))
+            if not isinstance(t[k0], (dict, list)):
+                local[k0] = gen.other_scalar(rng, t[k0])
+        n2 = model.Notes()
+        try:
+            hexp = model.merge(local, clone(t), n2)
+        except model.Reject:
+            return None
+        if n2.unspec or n2.either:
+            return None
+        host = dict(local, **{'$merge': rng.choice(['t', ['t']])})
+        lst_i, lst_e = [host], [hexp]
+        tail = []
+        for extra in rng.sample([('plain', 'plain'), ({'k': 1}, {'k': 1}), ({'$merge': 'tl'}, None), (7, 7)], rng.randint(0, 3)):
+            if extra[1] is None:
+                # a list-form reference among the entries: the referenced list is merged onto the local entries (appended), wherever the marker sits
+                lst_i.insert(rng.randint(0, len(lst_i)), extra[0])
+                tail = ['s1', 's2']
+            else:
+                pos = len(lst_i) if any(isinstance(x, dict) and list(x.keys()) == ['$merge'] for x in lst_i) and False else rng.randint(0, len([x for x in lst_i if not (isinstance(x, dict) and list(x.keys()) == ['$merge'])]))
+                # insert at the same logical position in both lists (the marker entry does not count)
+                real = [j for j, x in enumerate(lst_i) if not (isinstance(x, dict) and list(x.keys()) == ['$merge'])]
+                ipos = real[pos] if pos < len(real) else len(lst_i)
+                lst_i.insert(ipos, clone(extra[0]))
+                lst_e.insert(pos, clone(extra[1]))
+        lst_e = lst_e + tail
+        d = {'t': t, 'tl': ['s1', 's2'], 'l': lst_i}
+        e = {'t': clone(t), 'tl': ['s1', 's2'], 'l': lst_e}
+        if rng.random() < 0.3:
+            d, e = {'w': [[d['l']]], 't': d['t'], 'tl': d['tl']}, {'w': [[e['l']]], 't': e['t'], 'tl': e['tl']}
+        return {'docs': [d], 'expanded': [e], 'multi': kind, 'labels': sorted(labels)}
     t = plain(rng)
     t.pop('inner', None)
     notes = model.Notes()
